@@ -1,6 +1,6 @@
 (* C17: every request the reader has finished got as many responses as chunks it asked for,
    unless its session finished (repaired code). *)
-From Coq Require Import NArith List Bool Lia Arith.
+From Coq Require Import NArith List Bool Lia Arith Sorted.
 From Coq Require Import ZifyBool ZifyNat ZifyN.
 From LV Require Import model.Seeder spec.SeederSpec proofs.SeederProofs proofs.SeederQueues proofs.SeederSessions.
 Import ListNotations.
@@ -47,19 +47,19 @@ Definition complete (l : list resp) (r : resp) : Prop :=
 
 Definition pc_serial (pc : rpc) : option N :=
   match pc with
-  | RChunk rq _ _ | RSend rq _ _ _ => Some (r_serial rq)
+  | RChunk rq _ _ | RSend rq _ _ _ | REnq rq _ _ _ => Some (r_serial rq)
   | _ => None
   end.
 
 Definition pc_req (pc : rpc) : list request :=
-  match pc with RIdle => [] | RTop rq | RChunk rq _ _ | RSend rq _ _ _ => [rq] end.
+  match pc with RIdle => [] | RTop rq | RChunk rq _ _ | RSend rq _ _ _ | REnq rq _ _ _ => [rq] end.
 
 Definition pc_count (st : state) (tr : list event) : Prop :=
   match st_reader st with
   | RChunk rq i ss =>
       count_serial (r_serial rq) (produced st tr) = i /\ i <= r_chunks rq /\
       forall r, In r (produced st tr) -> ser r = r_serial rq -> rs_req r = rq /\ rs_inc r = s_inc ss
-  | RSend rq i ss r0 =>
+  | RSend rq i ss r0 | REnq rq i ss r0 =>
       count_serial (r_serial rq) (produced st tr) = i + 1 /\ i < r_chunks rq /\
       forall r, In r (produced st tr) -> ser r = r_serial rq -> rs_req r = rq /\ rs_inc r = s_inc ss
   | _ => True
@@ -149,7 +149,7 @@ Proof.
     destruct (st_reader st) eqn:Epc; try discriminate. destruct (st_chunreg st) as [|p0 rest0]; [discriminate|].
     inversion H; subst. apply (cinv_frame st tr); simpl; auto; [|lia].
     unfold produced. simpl. rewrite Epc, enqs_app. simpl. rewrite app_nil_r. reflexivity.
-  - destruct (st_reader st) as [|rq|rq i ss|rq i ss r0] eqn:Epc; try discriminate.
+  - destruct (st_reader st) as [|rq|rq i ss|rq i ss r0|rq i ss r0] eqn:Epc; try discriminate.
     + (* top *)
       destruct (st_pending st <? c_limit cfg); [|discriminate].
       destruct (reader_top v_fixed cfg st rq) as [st1 e1] eqn:Et. inversion H; subst st1 e1. clear H.
@@ -238,10 +238,25 @@ Proof.
                  --- assert (Hin : In r' (prod (s_inc ss) st tr)) by (rewrite Hl'; apply in_or_app; right; left; reflexivity).
                      unfold prod, sel in Hin. apply filter_In in Hin. destruct Hin as [_ Hk]. apply N.eqb_eq in Hk. congruence.
            ++ apply DN; [exact Hr1|]. simpl. intros E'. inversion E'. congruence.
+    + (* the addition to the pending size *)
+      unfold reader_add in H. destruct (st_pending st <? c_limit cfg); [|discriminate].
+      inversion H; subst st' evs. clear H. rewrite app_nil_r.
+      unfold pc_count in PC. rewrite Epc in PC. destruct PC as [PC1 [PC2 PC3]].
+      match goal with |- cinv ?s _ => set (st' := s) end.
+      assert (Hprod : produced st' tr = produced st tr).
+      { unfold produced. simpl. rewrite Epc. reflexivity. }
+      simpl in B1, ND.
+      constructor; rewrite ?Hprod; simpl.
+      * exact B1.
+      * exact B2.
+      * exact ND.
+      * exact F1.
+      * intros r1 rq0 _ E. discriminate.
+      * unfold pc_count. simpl. rewrite Hprod. split; [exact PC1|]. split; [exact PC2|exact PC3].
+      * intros r1 Hr1 Hne. apply DN; [exact Hr1|]. exact Hne.
     + (* enqueue *)
       unfold reader_send in H.
-      destruct ((st_pending st <? c_limit cfg) &&
-                (N.of_nat (length (nth (s_sender ss) (st_senders st) [])) <=? c_maxtasks cfg) &&
+      destruct ((N.of_nat (length (nth (s_sender ss) (st_senders st) [])) <=? c_maxtasks cfg) &&
                 (Nat.ltb (s_sender ss) (length (st_senders st)))); [|discriminate].
       inversion H; subst st' evs. clear H.
       unfold pc_count in PC. rewrite Epc in PC. destruct PC as [PC1 [PC2 PC3]].
@@ -316,4 +331,256 @@ Proof.
   intros rq i ss Hpc. pose proof (ci_pc _ _ HC) as H. unfold pc_count in H. rewrite Hpc in H.
   assert (Hp : produced st tr = enqs tr) by (unfold produced; rewrite Hpc; simpl; apply app_nil_r).
   rewrite Hp in H. tauto.
+Qed.
+
+(* ---------------------------------------------------------------------------------- *)
+(* Round 2: requests are served in the order of their serials; a finished request never  *)
+(* got more responses than it asked for; when it got fewer, the done response of its     *)
+(* session was produced by this request or an earlier one.                               *)
+(* ---------------------------------------------------------------------------------- *)
+Definition complete_strong (l : list resp) (r : resp) : Prop :=
+  count_serial (ser r) l = r_chunks (rs_req r) \/
+  exists r', In r' l /\ rs_inc r' = rs_inc r /\ rs_done r' = true /\ ser r' <= ser r.
+
+Record oinv (st : state) (tr : list event) : Prop := mkOinv {
+  oi_sorted : StronglySorted N.lt (map r_serial (st_chreq st));
+  oi_pc : forall rq0 rq, In rq0 (pc_req (st_reader st)) -> In rq (st_chreq st) -> r_serial rq0 < r_serial rq;
+  oi_ord : forall r rq, In r (produced st tr) -> In rq (st_chreq st ++ pc_req (st_reader st)) ->
+                        ser r <= r_serial rq;
+  oi_cnt : forall r, In r (produced st tr) -> count_serial (ser r) (produced st tr) <= r_chunks (rs_req r);
+  oi_done : forall r, In r (produced st tr) -> pc_serial (st_reader st) <> Some (ser r) ->
+                      complete_strong (produced st tr) r
+}.
+
+Lemma complete_strong_mono : forall l r x, complete_strong l r -> ser x <> ser r -> complete_strong (l ++ [x]) r.
+Proof.
+  intros l r x [H|[r' [H1 [H2 [H3 H4]]]]] Hx.
+  - left. rewrite count_serial_snoc_other by exact Hx. exact H.
+  - right. exists r'. split; [apply in_or_app; left; exact H1|auto].
+Qed.
+
+Lemma sorted_snoc : forall l x, StronglySorted N.lt l -> (forall y, In y l -> y < x) -> StronglySorted N.lt (l ++ [x]).
+Proof.
+  induction l as [|a l IH]; intros x Hs Hx; simpl.
+  - constructor; constructor.
+  - inversion Hs; subst. constructor.
+    + apply IH; [assumption|]. intros y Hy. apply Hx. right. exact Hy.
+    + apply Forall_app. split; [assumption|]. constructor; [apply Hx; left; reflexivity|constructor].
+Qed.
+
+Lemma oinv_frame : forall st tr st' tr',
+  oinv st tr ->
+  produced st' tr' = produced st tr -> st_chreq st' = st_chreq st -> st_reader st' = st_reader st ->
+  oinv st' tr'.
+Proof.
+  intros st tr st' tr' [H1 H2 H3 H4 H5] Hp Hc Hr. constructor; rewrite ?Hp, ?Hc, ?Hr; auto.
+Qed.
+
+Lemma step_oinv : forall cfg db st tr o st' evs,
+  sinv db st tr -> cinv st tr -> oinv st tr -> step v_fixed cfg db st o = Some (st', evs) ->
+  oinv st' (tr ++ evs).
+Proof.
+  intros cfg db st tr o st' evs HS HC HO H.
+  pose proof HC as [B1 B2 _ _ _ PC _]. pose proof HO as [S1 S2 S3 S4 S5].
+  destruct o as [rq|p| | | |i]; simpl in H.
+  - destruct (c_maxchunks cfg <? r_chunks rq).
+    + inversion H; subst. apply (oinv_frame st tr); simpl; auto.
+      unfold produced. simpl. rewrite enqs_app. simpl. rewrite app_nil_r. reflexivity.
+    + destruct (16 <=? N.of_nat (length (st_chreq st))); [discriminate|].
+      inversion H; subst. rewrite app_nil_r.
+      set (rq' := sanitize cfg (st_serial st) rq).
+      assert (Hp : forall s0, produced (mkSt (st_sessions st) (st_peersess st) (st_counter st) (st_chreq st ++ [rq'])
+                     (st_chunreg st) (st_reader st) (st_senders st) (st_pending st) s0) tr = produced st tr)
+        by (intros; reflexivity).
+      constructor; simpl; rewrite ?Hp.
+      * rewrite map_app. simpl. apply sorted_snoc; [exact S1|].
+        intros y Hy. apply in_map_iff in Hy. destruct Hy as [rq0 [<- Hin]].
+        assert (Hin' : In rq0 (st_chreq st ++ pc_req (st_reader st))) by (apply in_or_app; left; exact Hin).
+        specialize (B1 _ Hin'). lia.
+      * intros rq0 rq1 Hpc Hin. apply in_app_or in Hin. destruct Hin as [Hin|[<-|[]]]; [auto|].
+        assert (Hin' : In rq0 (st_chreq st ++ pc_req (st_reader st))) by (apply in_or_app; right; exact Hpc).
+        specialize (B1 _ Hin'). unfold rq'. simpl. lia.
+      * intros r rq1 Hr Hin. rewrite <- app_assoc in Hin. apply in_app_or in Hin.
+        destruct Hin as [Hin|[<-|Hin]].
+        -- apply S3; [exact Hr|apply in_or_app; left; exact Hin].
+        -- specialize (B2 _ Hr). unfold rq'. simpl. lia.
+        -- apply S3; [exact Hr|apply in_or_app; right; exact Hin].
+      * exact S4.
+      * exact S5.
+  - destruct (128 <=? N.of_nat (length (st_chunreg st))); [discriminate|].
+    inversion H; subst. rewrite app_nil_r. apply (oinv_frame st tr); simpl; auto.
+  - destruct (st_reader st) eqn:Epc; try discriminate. destruct (st_chreq st) as [|rq0 rest0] eqn:Ech; [discriminate|].
+    inversion H; subst. rewrite app_nil_r.
+    assert (Hp : produced (mkSt (st_sessions st) (st_peersess st) (st_counter st) rest0
+                      (st_chunreg st) (RTop rq0) (st_senders st) (st_pending st) (st_serial st)) tr = produced st tr)
+      by (unfold produced; simpl; rewrite Epc; reflexivity).
+    simpl in S1. inversion S1 as [|? ? Hs Hall]; subst. simpl in *.
+    constructor; simpl; rewrite ?Hp.
+    + exact Hs.
+    + intros rq1 rq2 [<-|[]] Hin. rewrite Forall_forall in Hall. apply Hall. apply in_map. exact Hin.
+    + intros r rq1 Hr Hin. apply S3; [exact Hr|]. rewrite app_nil_r.
+      apply in_app_or in Hin. destruct Hin as [Hin|[<-|[]]]; [right; exact Hin|left; reflexivity].
+    + exact S4.
+    + intros r Hr _. apply S5; [exact Hr|discriminate].
+  - destruct (st_reader st) eqn:Epc; try discriminate. destruct (st_chunreg st) as [|p0 rest0]; [discriminate|].
+    inversion H; subst. apply (oinv_frame st tr); simpl; auto.
+    unfold produced. simpl. rewrite Epc, enqs_app. simpl. rewrite app_nil_r. reflexivity.
+  - destruct (st_reader st) as [|rq|rq i ss|rq i ss r0|rq i ss r0] eqn:Epc; try discriminate.
+    + destruct (st_pending st <? c_limit cfg); [|discriminate].
+      destruct (reader_top v_fixed cfg st rq) as [st1 e1] eqn:Et. inversion H; subst st1 e1. clear H.
+      assert (Hshape : st_chreq st' = st_chreq st /\ enqs evs = [] /\
+                       (st_reader st' = RIdle \/ exists ss, st_reader st' = RChunk rq 0 ss)).
+      { unfold reader_top in Et. simpl in Et.
+        destruct (sess_get (r_peer rq, r_sid rq) (st_sessions st)) as [ss|].
+        - destruct (s_orig ss =? r_start rq); inversion Et; subst; simpl; eauto 10.
+        - destruct (prune (r_peer rq) (ps_get (r_peer rq) (st_peersess st)) (st_sessions st)) as [s2 t2].
+          inversion Et; subst; simpl; eauto 10. }
+      destruct Hshape as [Hch [Hen Hpc']].
+      assert (Hprod : produced st' (tr ++ evs) = produced st tr).
+      { unfold produced. rewrite enqs_app, Hen, app_nil_r, Epc. simpl.
+        destruct Hpc' as [E|[ss E]]; rewrite E; reflexivity. }
+      simpl in S2, S3.
+      constructor; rewrite ?Hprod, ?Hch.
+      * exact S1.
+      * intros rq0 rq1 Hin0 Hin1. destruct Hpc' as [E|[ss E]]; rewrite E in Hin0; simpl in Hin0; [destruct Hin0|].
+        apply S2; auto.
+      * intros r rq1 Hr Hin. apply S3; [exact Hr|]. apply in_app_or in Hin. apply in_or_app.
+        destruct Hin as [Hin|Hin]; [left; exact Hin|right].
+        destruct Hpc' as [E|[ss E]]; rewrite E in Hin; simpl in Hin; [destruct Hin|exact Hin].
+      * exact S4.
+      * intros r Hr Hne. apply S5; [exact Hr|]. simpl. discriminate.
+    + inversion H; subst st' evs. clear H. rewrite app_nil_r.
+      unfold pc_count in PC. rewrite Epc in PC. destruct PC as [PC1 [PC2 PC3]].
+      unfold reader_chunk.
+      destruct ((i <? r_chunks rq) && negb (s_done ss)) eqn:Eguard.
+      * apply andb_prop in Eguard. destruct Eguard as [Ei _].
+        destruct (foreach db (s_next ss) (s_stop ss) (r_num rq) (r_size rq) [] (s_next ss)) as [[items last] c].
+        set (r := mkResp (r_peer rq) (r_sid rq) c items (s_inc ss) (s_creator ss) rq).
+        match goal with |- oinv ?s _ => set (st' := s) end.
+        assert (Hprod : produced st' tr = produced st tr ++ [r]).
+        { unfold produced. simpl. rewrite Epc. simpl. rewrite app_nil_r. reflexivity. }
+        assert (Hsr : ser r = r_serial rq) by reflexivity.
+        simpl in S2, S3.
+        constructor; rewrite ?Hprod; simpl.
+        -- exact S1.
+        -- exact S2.
+        -- intros r1 rq1 Hr1 Hin. apply in_app_or in Hr1. destruct Hr1 as [Hr1|[<-|[]]]; [apply S3; auto|].
+           rewrite Hsr. apply in_app_or in Hin. destruct Hin as [Hin|[<-|[]]]; [|lia].
+           assert (Hlt : r_serial rq < r_serial rq1) by (apply S2; [left; reflexivity|exact Hin]). lia.
+        -- intros r1 Hr1. apply in_app_or in Hr1. destruct Hr1 as [Hr1|[<-|[]]].
+           ++ destruct (N.eq_dec (ser r1) (r_serial rq)) as [E|E].
+              ** destruct (PC3 _ Hr1 E) as [Hrq _]. rewrite E, Hrq.
+                 rewrite count_serial_snoc_same by exact Hsr. lia.
+              ** rewrite count_serial_snoc_other by (rewrite Hsr; congruence). apply S4. exact Hr1.
+           ++ rewrite Hsr. simpl. rewrite count_serial_snoc_same by exact Hsr. lia.
+        -- intros r1 Hr1 Hne. apply in_app_or in Hr1. destruct Hr1 as [Hr1|[<-|[]]].
+           ++ apply complete_strong_mono.
+              ** apply S5; [exact Hr1|]. simpl. exact Hne.
+              ** rewrite Hsr. intros E. apply Hne. rewrite E. reflexivity.
+           ++ exfalso. apply Hne. rewrite Hsr. reflexivity.
+      * match goal with |- oinv ?s _ => set (st' := s) end.
+        assert (Hprod : produced st' tr = produced st tr).
+        { unfold produced. simpl. rewrite Epc. reflexivity. }
+        simpl in S2, S3.
+        constructor; rewrite ?Hprod; simpl.
+        -- exact S1.
+        -- intros rq0 rq1 [].
+        -- intros r1 rq1 Hr1 Hin. rewrite app_nil_r in Hin. apply S3; [exact Hr1|apply in_or_app; left; exact Hin].
+        -- exact S4.
+        -- intros r1 Hr1 _. destruct (N.eq_dec (ser r1) (r_serial rq)) as [E|E].
+           ++ destruct (PC3 _ Hr1 E) as [Hrq Hinc]. unfold complete_strong. rewrite E, Hrq.
+              apply andb_false_iff in Eguard. destruct Eguard as [Eg|Eg].
+              ** left. lia.
+              ** apply negb_false_iff in Eg. right.
+                 pose proof (si_pc _ _ _ HS) as Hpc. unfold pc_ok in Hpc. rewrite Epc in Hpc.
+                 destruct (si_live _ _ _ HS _ _ Hpc) as [_ _ _ _ Lf _].
+                 destruct Lf as [[Hd _]|[_ [l' [r' [Hl' [_ Hr']]]]]]; [congruence|].
+                 assert (Hin : In r' (prod (s_inc ss) st tr)) by (rewrite Hl'; apply in_or_app; right; left; reflexivity).
+                 unfold prod, sel in Hin. apply filter_In in Hin. destruct Hin as [Hin Hk]. apply N.eqb_eq in Hk.
+                 exists r'. split; [exact Hin|]. split; [congruence|]. split; [exact Hr'|].
+                 apply S3; [exact Hin|apply in_or_app; right; left; reflexivity].
+           ++ apply S5; [exact Hr1|]. simpl. intros E'. inversion E'. congruence.
+    + unfold reader_add in H. destruct (st_pending st <? c_limit cfg); [|discriminate].
+      inversion H; subst st' evs. clear H. rewrite app_nil_r.
+      match goal with |- oinv ?s _ => set (st' := s) end.
+      assert (Hprod : produced st' tr = produced st tr).
+      { unfold produced. simpl. rewrite Epc. reflexivity. }
+      simpl in S2, S3.
+      constructor; rewrite ?Hprod; simpl.
+      * exact S1.
+      * exact S2.
+      * exact S3.
+      * exact S4.
+      * intros r1 Hr1 Hne. apply S5; [exact Hr1|]. exact Hne.
+    + unfold reader_send in H.
+      destruct ((N.of_nat (length (nth (s_sender ss) (st_senders st) [])) <=? c_maxtasks cfg) &&
+                (Nat.ltb (s_sender ss) (length (st_senders st)))); [|discriminate].
+      inversion H; subst st' evs. clear H.
+      match goal with |- oinv ?s _ => set (st' := s) end.
+      assert (Hprod : produced st' (tr ++ [EEnq r0]) = produced st tr).
+      { unfold produced. simpl. rewrite Epc, enqs_app. simpl. rewrite app_nil_r. reflexivity. }
+      simpl in S2, S3.
+      constructor; rewrite ?Hprod; simpl.
+      * exact S1.
+      * exact S2.
+      * exact S3.
+      * exact S4.
+      * intros r1 Hr1 Hne. apply S5; [exact Hr1|]. exact Hne.
+  - destruct (nth i (st_senders st) []) as [|r0 q] eqn:En; [discriminate|].
+    inversion H; subst. apply (oinv_frame st tr); simpl; auto.
+    unfold produced. simpl. rewrite enqs_app. simpl. rewrite app_nil_r. reflexivity.
+Qed.
+
+Lemma oinv_init : forall cfg, oinv (init cfg) [].
+Proof.
+  intros cfg. constructor; simpl; try (intros; contradiction); auto. constructor.
+Qed.
+
+Lemma run_oinv : forall cfg db ops st tr st' evs,
+  sorted_keys db -> sinv db st tr -> cinv st tr -> oinv st tr -> run v_fixed cfg db st ops = (st', evs) ->
+  sinv db st' (tr ++ evs) /\ cinv st' (tr ++ evs) /\ oinv st' (tr ++ evs).
+Proof.
+  intros cfg db ops. induction ops as [|o ops IH]; intros st tr st' evs Hs HI HC HO H; simpl in H.
+  - inversion H; subst. rewrite app_nil_r. auto.
+  - destruct (step v_fixed cfg db st o) as [[st1 e1]|] eqn:Es.
+    + destruct (run v_fixed cfg db st1 ops) as [st2 e2] eqn:Er. inversion H; subst.
+      rewrite app_assoc. apply (IH st1 (tr ++ e1) st' e2 Hs);
+        [exact (step_sinv _ _ _ _ _ _ _ Hs HI Es)|exact (step_cinv _ _ _ _ _ _ _ HI HC Es)
+        |exact (step_oinv _ _ _ _ _ _ _ HI HC HO Es)|exact Er].
+    + eapply IH; eauto.
+Qed.
+
+(* whenever the reader is between two requests: every request that has produced a response got
+   exactly the chunks it asked for, or the done response of its session was produced by this
+   request or an earlier one *)
+Lemma requests_complete_strong : forall cfg db ops,
+  sorted_keys db ->
+  let st := fst (run v_fixed cfg db (init cfg) ops) in
+  let tr := snd (run v_fixed cfg db (init cfg) ops) in
+  st_reader st = RIdle ->
+  forall r, In r (enqs tr) ->
+    count_serial (ser r) (enqs tr) = r_chunks (rs_req r)
+    \/ exists r', In r' (enqs tr) /\ rs_inc r' = rs_inc r /\ rs_done r' = true /\ ser r' <= ser r.
+Proof.
+  intros cfg db ops Hs. destruct (run v_fixed cfg db (init cfg) ops) as [st tr] eqn:Er. simpl.
+  destruct (run_oinv _ _ _ _ _ _ _ Hs (sinv_init cfg db) (cinv_init cfg) (oinv_init cfg) Er) as [_ [_ HO]].
+  simpl in HO. intros Hidle r Hr.
+  assert (Hp : produced st tr = enqs tr) by (unfold produced; rewrite Hidle; simpl; apply app_nil_r).
+  pose proof (oi_done _ _ HO r) as Hd. rewrite Hp, Hidle in Hd. apply Hd; [exact Hr|discriminate].
+Qed.
+
+(* in every reachable state, no request has got more responses than the chunks it asked for,
+   and responses are produced in the order of the requests' serials *)
+Lemma requests_never_exceed : forall cfg db ops,
+  sorted_keys db ->
+  let tr := snd (run v_fixed cfg db (init cfg) ops) in
+  forall r, In r (enqs tr) -> count_serial (ser r) (enqs tr) <= r_chunks (rs_req r).
+Proof.
+  intros cfg db ops Hs. destruct (run v_fixed cfg db (init cfg) ops) as [st tr] eqn:Er. simpl.
+  destruct (run_oinv _ _ _ _ _ _ _ Hs (sinv_init cfg db) (cinv_init cfg) (oinv_init cfg) Er) as [_ [_ HO]].
+  simpl in HO. intros r Hr.
+  assert (Hin : In r (produced st tr)) by (unfold produced; apply in_or_app; left; exact Hr).
+  pose proof (oi_cnt _ _ HO r Hin) as Hc.
+  (* the response the reader may hold (not yet enqueued) only adds to the count *)
+  unfold produced in Hc. unfold count_serial in *. rewrite for_serial_app, app_length in Hc. lia.
 Qed.
